@@ -73,6 +73,30 @@ def oracle(ctx, budget=1, replay=None, hints=None):
                 break
         if SS.fingerprint(run.h.state) != run.live_before:
             fails.append(dict(what='filtering a file modified the live plugin state', signature='C20:isolation', case=dict(lines=[repr(x) for x in f['lines'][:8]])))
+    # isolation on designed live states: an episode is open live with deferred (first / last / merged) commands, an owed recovery, changed
+    # units / modes; the file then defers the same codes again, leaves the region, switches units -- nothing of it may reach the live state
+    import io as _io
+    from fractions import Fraction as _F
+    for _ in range(25 * budget):
+        n += 1
+        rng = ctx.rng
+        h = impl.new_handlers([('rect', 'a', _F(10), _F(10), _F(20), _F(20))], ext={'M204': 'merge', 'M205': 'merge', 'M117': 'last', 'M73': 'first', 'G4': 'exclude'},
+                              enter=['M117 in'], exit_=['M117 out'])
+        live = ['G28', 'G1 X5 Y5 E1 F3000'] + rng.sample(['G1 E0.5', 'G20', 'G91', 'G10', 'M204 P1000 T2000'], rng.randint(0, 2)) + ['G90', 'G21', 'G1 X15 Y15']
+        live += rng.sample(['M204 P1000 T2000', 'M205 X8 Y8', 'M117 live', 'M73 P5', 'G1 E1.5', 'G1 X16 Y16 E2', 'G11'], rng.randint(1, 5))
+        impl.run(h, live)
+        before = SS.fingerprint(h.state)
+        sp = impl.StreamProcessor(_io.BytesIO(b''), h)
+        filel = rng.sample(['M204 S750 P500', 'M205 X1', 'M117 file', 'M73 P50 R3', 'G1 E3', 'G20', 'G91', 'G10 S1', '@ExcludeRegion off', 'G92 E0', 'G1 X17 Y17'], rng.randint(2, 7))
+        filel += ['G90', 'G21', 'G1 X30 Y30 E4', 'G1 X15 Y15', 'M204 T1']
+        try:
+            for l in filel:
+                sp.process_line(l + '\n')
+        except Exception as e:
+            fails.append(dict(what='process_line raised %s: %s' % (type(e).__name__, e), signature='C20:exception', case=dict(live=live, file=filel)))
+            continue
+        if SS.fingerprint(h.state) != before:
+            fails.append(dict(what='filtering a file modified the live plugin state (live: %r; file: %r)' % (live, filel), signature='C20:isolation', case=dict(live=live, file=filel)))
     # known finding D23: OctoPrint's own command parser only recognises upper-case codes, so a lower-case command is not
     # filtered live, while the offline parser normalises and filters it
     from fractions import Fraction as F
